@@ -228,7 +228,10 @@ def rule_raisetypes(ctx):
 
 def _atoms(r):
     """Atomic comparison facts (op, lhs, rhs) that hold when raise site r executes (innermost guard only)."""
-    conds = [(c, p) for c, p, o in symeval.pc_conds_full(r.pc) if o is None]
+    # enclosing branch conditions, and what an earlier `if c: return ...` established for the rest of the block
+    # (`if ok: return x` followed by `raise` is `if not ok: raise`); conditions left behind by earlier raises are
+    # other checks that passed, not the guard of this one
+    conds = [(c, p) for c, p, o in symeval.pc_conds_full(r.pc) if o in (None, "return", "mixed")]
     out = []
     if not conds:
         return out
